@@ -18,6 +18,7 @@ taken.  Monitors:
 from __future__ import annotations
 
 import asyncio
+import os
 from typing import Any
 
 from . import air as airmod, harness, hist, vloop
@@ -179,6 +180,34 @@ def only_array_halves_merged(first: dict[str, str], second: dict[str, str], join
             k2 != k and code_of(v2) == code_of(v) and v2[4:6] == " I" and v2[11:20] == v[11:20] and abs((_dt.datetime.fromisoformat(k2) - t0).total_seconds()) < 3.0
             for k2, v2 in first.items()
         ):
+            return False
+    return True
+
+
+def lost_to_slot_inversion(first: dict[str, str], second: dict[str, str], fed: list[tuple[str, str]] | None) -> bool:
+    """True if `second` is `first` minus packets P for which the history fed a packet of the same slot (same
+    sender, verb, code and array-ness) with a *later stamp, earlier*: in a log that is not in timestamp order the
+    live gateway keeps what arrived last and a restore (which replays by stamp) what is stamped last - holders that
+    take different routes may keep both live, none can after the restore.  That is the disordered history's doing
+    (histories in timestamp order cannot produce it), so it is not held against the restore."""
+    if not fed or any(k not in first or first[k] != v for k, v in second.items()):
+        return False
+
+    def slot(frame: str) -> tuple[str, str, str, bool] | None:
+        p = frame.split("#")[0].split()
+        if len(p) < 8:
+            return None
+        verb = p[0] if p[0] in ("I", "W", "RQ", "RP") else p[1] if len(p) > 8 else p[0]
+        src = next((a for a in p[-6:-3] if not a.startswith("--")), "")
+        return (src, verb, p[-3], len(p[-1]) > 6 and p[-3] in ("30C9", "2309", "000A", "22C9", "3150", "0009", "2249"))
+
+    order = [(d, slot(f)) for d, f in fed]
+    for k, v in first.items():
+        if k in second:
+            continue
+        me = slot(v.replace("... ", "", 1))
+        at = next((i for i, (d, _) in enumerate(order) if d == k), None)
+        if me is None or at is None or not any(sl == me and d > k for d, sl in order[:at]):
             return False
     return True
 
@@ -349,6 +378,8 @@ async def check_snapshot(loop, ctx, rig: Rig, include_expired: bool, meta: dict[
             ctx.count("fixpoint.expired_purged")
         elif pkts_b != pkts_a and only_array_halves_merged(pkts_a, pkts_b, joined_a, rig.fed):
             ctx.violate("C16|fixpoint|array-halves-rejoined-on-restore", "two halves of an array (000A/22C9) that were kept apart live are joined when restored: the snapshot loses a packet", {"diff": diff_pkts(pkts_a, pkts_b), "stack": rig.stack, "history": meta})
+        elif pkts_b != pkts_a and "disorder" in meta.get("ops", ()) and not os.environ.get("VERIF_NO_SLOT_TOL") and lost_to_slot_inversion(pkts_a, pkts_b, rig.fed):
+            ctx.count("fixpoint.slot_inversion_of_a_disordered_log")
         elif pkts_b != pkts_a and only_addressee_held(pkts_a, pkts_b):
             ctx.violate(
                 "C16|fixpoint|reply-held-only-by-its-addressee-lost-on-restore",
@@ -392,6 +423,8 @@ async def check_snapshot(loop, ctx, rig: Rig, include_expired: bool, meta: dict[
                 ctx.count("idempotence.expired_purged")
             elif pkts_c != ref_pkts and only_array_halves_merged(ref_pkts, pkts_c, joined_a, rig.fed):
                 ctx.violate("C16|fixpoint|array-halves-rejoined-on-restore", "two halves of an array (000A/22C9) that were kept apart live are joined when restored: the snapshot loses a packet", {"diff": diff_pkts(ref_pkts, pkts_c), "stack": rig.stack, "history": meta})
+            elif pkts_c != ref_pkts and "disorder" in meta.get("ops", ()) and not os.environ.get("VERIF_NO_SLOT_TOL") and lost_to_slot_inversion(ref_pkts, pkts_c, rig.fed):
+                ctx.count("idempotence.slot_inversion_of_a_disordered_log")
             elif pkts_c != ref_pkts:
                 d = diff_pkts(ref_pkts, pkts_c)
                 codes = sorted({code_of(v) for v in list(d["only_in_first"].values()) + list(d["only_in_second"].values())} | {code_of(v[0]) for v in d["changed"].values()})
